@@ -246,6 +246,10 @@ partial def loop (h : IO.FS.Stream) (r : Option Router) (pubs : Pubs := []) : IO
         | .error e => do IO.println (Json.mkObj [("err", .str e)]).compress; loop h r pubs
         | .ok op =>
           let (obs, r1) := Router.step r0 op
+          -- a session attached through a socket transport ("via"): its inbound messages are buffered
+          let r1 := match op, j.getObjVal? "via" with
+            | .join _ k .., .ok (.str _) => (Router.step r1 (.sess k (.buffer k))).2
+            | _, _ => r1
           IO.println (render obs)
           loop h (some r1) (pubs ++ publishedIds obs)
 
